@@ -55,8 +55,8 @@ CLAIMED['C12'] = dict(
    design_ref="5/C12")
 
 CLAIMED['C07'] = dict(
-   text="Proof (partial, props/C07.v): for every table the alphabet as a set is exactly the documented one (index, branch, single/double ring symbols, [bK] iff order(b) <= capacity(K), K != '?'); for every neutral key (all 118 elements x 3 prefixes, finite sweep lifted) the alphabet's atom symbol is a grammar symbol with that capacity. Charged keys and the closure 'every string over the alphabet decodes to a table-obedient molecule' are not yet theorems: they are checked per run - every symbol alone and in a live context, live/uniform strings over the returned alphabet under ~70 tables incl. multi-digit charges, capacity 0 and >8 - by decode-never-raises and the extracted independent reader.",
-   technique="Coq proof of the alphabet's content + finite sweep over all elements + extracted-reader oracle on strings over the returned alphabet + exact correspondence",
+   text="Kernel-checked for EVERY accepted table and EVERY finite sequence of alphabet symbols (props/C07.v, proofs/AlphaClosure.v): the alphabet as a set is exactly the documented one; every atom symbol of the alphabet - neutral keys (all 118 elements, finite sweep lifted) and charged keys (any canonical charge, through a proved decimal print/parse round trip) - is a symbol of the grammar with its key's capacity; the concatenation tokenises back into the same symbols; the decoder returns (raises nothing); and every atom of the graph it returns respects the capacity the table gives it. The presets are proved to satisfy the hypothesis. The hypothesis 'key no longer than the interpreter's int() digit limit' is needed: without it the property fails on the implementation (known finding F-C07-int-digits, found by this proof). Not a theorem: the step from the graph to the printed SMILES (judged per run by the extracted reader on strings over the returned alphabet); aliasing of the returned set is a known finding shared with C12.",
+   technique="Coq proof (alphabet content + symbol-by-symbol grammar membership incl. decimal round trip + lexer round trip + decoder success and valence invariant) + extracted-reader oracle on strings over the returned alphabet + exact correspondence",
    design_ref="5/C07")
 
 CLAIMED['C03'] = dict(
